@@ -1,6 +1,7 @@
 (* C01 driver.  One case per line:
      pp <term>        -> "<items> | <parse (pp e) as term or FAIL> | <no_fuse 0/1> | <wf 0/1> | <lex_ok 0/1>"
      parse <tokens>   -> "<term or FAIL>"
+     fuse <tok> <tok> -> "1" if the model says the two tokens may not be adjacent, else "0"
    term / token syntax: see harness/impl/c01_impl.py (enc_term / enc_tokens). *)
 let toks_of_line s = List.filter (fun x -> x <> "") (String.split_on_char ' ' s)
 let nn s = n_of_int (int_of_string s)
@@ -118,6 +119,7 @@ let () =
            let back = (match parse (pp e) with Some e' -> term_str e' | None -> "FAIL") in
            let b01 x = if x then "1" else "0" in
            print_string (its ^ " | " ^ back ^ " | " ^ b01 (no_fuse items) ^ " | " ^ b01 (wf e) ^ " | " ^ b01 (lex_ok e))
+         | "fuse" :: a :: b :: [] -> print_string (if fuses (rd_tok a) (rd_tok b) then "1" else "0")
          | "parse" :: r ->
            (match parse (List.map rd_tok r) with Some e -> print_string (term_str e) | None -> print_string "FAIL")
          | _ -> print_string "BAD"
